@@ -1,5 +1,6 @@
 """C01 - components run at most once, dependencies first, seeds never overwritten."""
 import ast
+from ..util import find_calls
 
 from ..model import (AnalysisError, FUNC_TYPES, U, call_attr, call_name, dotted, enclosing, enclosing_function,
                      guard_texts, names_in, parent, short, walk_body, walk_local, ancestors, terminates)
@@ -269,6 +270,30 @@ def r5_order_provenance(cx, mods):
         cx.bad(m.func("run", "C01.R5"), "dr.run evaluates through run_components(run_order(G), G, broker)", construct="(no run_components call site)")
 
 
+def r5b_graph_as_requested(cx):
+    """What takes part in the evaluation is what determine_components() made of the request.  A component added to the graph by dr.run itself (e.g. an empty
+    entry for a dependency that was left out on purpose) is ordered as if it had no dependencies and runs although it was not asked for."""
+    cx.rule("C01.R5", "every run_components call passes an order computed by toposort from the same graph", floor=2)
+    m = cx.repo.module(DR)
+    fn = m.func("run", "C01.R5")
+    calls = [c for c in find_calls(fn.body, name="run_components")]
+    if not calls or len(calls[0].args) < 2 or not isinstance(calls[0].args[1], ast.Name):
+        return
+    g = calls[0].args[1].id
+    bad = []
+    for a in walk_body(fn.body):
+        if isinstance(a, ast.Assign) and any(isinstance(t, ast.Name) and t.id == g for t in a.targets):
+            v = U(a.value)
+            if not (v.startswith("determine_components(") or v == "%s or COMPONENTS[GROUPS.single]" % g):
+                bad.append(a)
+        elif isinstance(a, (ast.Subscript,)) and isinstance(a.ctx, ast.Store) and U(a.value) == g:
+            bad.append(a)
+        elif isinstance(a, ast.Call) and isinstance(a.func, ast.Attribute) and U(a.func.value) == g and a.func.attr in ("update", "setdefault", "__setitem__"):
+            bad.append(a)
+    cx.require(not bad, bad[0] if bad else fn, "dr.run evaluates the graph determine_components() returned: it may prune it (hydrated archives) but never adds components or rebuilds it",
+               construct=short(bad[0]) if bad else "graph variable '%s' only determined and pruned" % g)
+
+
 def _trace_to_call(expr, at):
     if isinstance(expr, ast.Call):
         return expr
@@ -420,6 +445,7 @@ def run(cx):
     cx.guard(r3_single_writer, mods)
     cx.guard(r4_who_may_call, mods)
     cx.guard(r5_order_provenance, mods)
+    cx.guard(r5b_graph_as_requested)
     cx.guard(r6_toposort_shape)
     cx.guard(r7_closure)
     # "at most once" also rests on the decomposition into sub-graphs and on the drivers (C04.R4 / C04.R5)
